@@ -59,20 +59,17 @@ Fixpoint re_cmp (a b : re) : comparison :=
 
 Definition re_eqb (a b : re) : bool := match re_cmp a b with Eq => true | _ => false end.
 
-(* ---------- smart constructors (similarity: unit/zero laws, Cat right-nested, Alt as a sorted
-   duplicate-free right-nested list) ---------- *)
-Fixpoint cat_app (a b : re) : re :=          (* b is neither Empty nor Eps *)
-  match a with
-  | Empty => Empty
-  | Eps => b
-  | Cat a1 a2 => Cat a1 (cat_app a2 b)
-  | _ => Cat a b
-  end.
+(* ---------- smart constructors (similarity: unit/zero laws, Alt as a sorted duplicate-free
+   right-nested list) ---------- *)
+(* unit / zero laws only: concatenations are NOT re-associated, so the derivative of a small left
+   factor stays small and the continuation is shared, not copied into every alternative *)
 Definition mkcat (a b : re) : re :=
-  match b with
-  | Empty => Empty
-  | Eps => a
-  | _ => cat_app a b
+  match a, b with
+  | Empty, _ => Empty
+  | _, Empty => Empty
+  | Eps, _ => b
+  | _, Eps => a
+  | _, _ => Cat a b
   end.
 
 Fixpoint alt_ins (x r : re) : re :=          (* insert the non-Alt x into the sorted list r *)
@@ -197,31 +194,22 @@ Lemma re_eqb_eq a b : re_eqb a b = true -> a = b.
 Proof. unfold re_eqb. destruct (re_cmp a b) eqn:E; try discriminate. intros _. apply re_cmp_eq. exact E. Qed.
 
 (* ---------- smart constructors preserve the language ---------- *)
-Lemma cat_app_iff a : forall b s, matches (cat_app a b) s <-> matches (Cat a b) s.
-Proof.
-  induction a as [| |x|a1 IH1 a2 IH2|a1 IH1 a2 IH2|a1 IH1]; intros b s; simpl; try tauto.
-  - split; [intros H; exfalso; eapply empty_inv; eauto|].
-    rewrite cat_inv. intros [s1 [s2 [_ [H _]]]]. exfalso; eapply empty_inv; eauto.
-  - rewrite cat_inv. split.
-    + intros H. exists [], s. split; [reflexivity | split; [constructor | exact H]].
-    + intros [s1 [s2 [-> [H1 H2]]]]. apply eps_inv in H1. subst. exact H2.
-  - rewrite cat_inv. split.
-    + intros [s1 [s2 [-> [H1 H2]]]]. apply IH2 in H2. apply cat_inv in H2. destruct H2 as [t1 [t2 [-> [K1 K2]]]].
-      rewrite app_assoc. apply MCat; [apply MCat; assumption | assumption].
-    + intros H. apply cat_inv in H. destruct H as [s1 [s2 [-> [H1 H2]]]].
-      apply cat_inv in H1. destruct H1 as [t1 [t2 [-> [K1 K2]]]].
-      exists t1, (t2 ++ s2). split; [rewrite app_assoc; reflexivity | split; [exact K1|]].
-      apply IH2. apply MCat; assumption.
-Qed.
-
 Lemma mkcat_iff a b s : matches (mkcat a b) s <-> matches (Cat a b) s.
 Proof.
-  unfold mkcat. destruct b; try apply cat_app_iff.
-  - split; [intros H; exfalso; eapply empty_inv; eauto|].
-    rewrite cat_inv. intros [s1 [s2 [_ [_ H]]]]. exfalso; eapply empty_inv; eauto.
-  - rewrite cat_inv. split.
-    + intros H. exists s, []. split; [rewrite app_nil_r; reflexivity | split; [exact H | constructor]].
-    + intros [s1 [s2 [-> [H1 H2]]]]. apply eps_inv in H2. subst. rewrite app_nil_r. exact H1.
+  assert (E1 : forall x, matches (Cat Empty x) s <-> matches Empty s).
+  { intros x. rewrite cat_inv. split; [intros [s1 [s2 [_ [H _]]]] | intros H]; exfalso; eapply empty_inv; eauto. }
+  assert (E2 : forall x, matches (Cat x Empty) s <-> matches Empty s).
+  { intros x. rewrite cat_inv. split; [intros [s1 [s2 [_ [_ H]]]] | intros H]; exfalso; eapply empty_inv; eauto. }
+  assert (U1 : forall x, matches (Cat Eps x) s <-> matches x s).
+  { intros x. rewrite cat_inv. split.
+    - intros [s1 [s2 [-> [H1 H2]]]]. apply eps_inv in H1. subst. exact H2.
+    - intros H. exists [], s. split; [reflexivity | split; [constructor | exact H]]. }
+  assert (U2 : forall x, matches (Cat x Eps) s <-> matches x s).
+  { intros x. rewrite cat_inv. split.
+    - intros [s1 [s2 [-> [H1 H2]]]]. apply eps_inv in H2. subst. rewrite app_nil_r. exact H1.
+    - intros H. exists s, []. split; [rewrite app_nil_r; reflexivity | split; [exact H | constructor]]. }
+  destruct a; destruct b; cbn [mkcat];
+    rewrite ?E1, ?E2, ?U1, ?U2; try tauto; try (symmetry; first [apply E1 | apply E2 | apply U1 | apply U2]).
 Qed.
 
 Lemma alt_ins_iff x r : forall s, matches (alt_ins x r) s <-> matches x s \/ matches r s.
